@@ -757,7 +757,9 @@ fn expected_text(p: &Print) -> Option<String> {
     }
     let mut s = String::new();
     match p.tr {
-        FmtTrait::LowerHex | FmtTrait::UpperHex => {
+        // Display is listed by the property among the positional hex renderings; every type of the crate renders it
+        // as upper-case hex (the repo's own tests pin that for Uint and Int)
+        FmtTrait::LowerHex | FmtTrait::UpperHex | FmtTrait::Display => {
             if p.alt {
                 s.push_str("0x");
             }
@@ -798,6 +800,18 @@ fn exec_print(p: &Print, out: &mut RunOut) {
     if r.is_err() {
         out.viol("C16/fmt-content", sig("spurious-error"), "formatting into an unlimited sink returned Err".into(), print_plan(p, Some(usize::MAX / 2)));
         return;
+    }
+    if p.words.is_empty() {
+        // an empty BoxedUint: the digit count is not stated anywhere, but it is the number zero rendered by this
+        // trait — the trait's prefix iff `#`, then nothing but '0' digits
+        let prefix = match (p.tr, p.alt) {
+            (FmtTrait::Binary, true) => "0b",
+            (FmtTrait::LowerHex | FmtTrait::UpperHex | FmtTrait::Display, true) => "0x",
+            _ => "",
+        };
+        if p.tr != FmtTrait::Debug && !(full.buf.starts_with(prefix) && full.buf[prefix.len()..].bytes().all(|c| c == b'0')) {
+            out.viol("C16/fmt-content", sig("empty-value"), format!("an empty BoxedUint printed as {:?}; expected the prefix {:?} followed only by zero digits", full.buf, prefix), print_plan(p, Some(usize::MAX / 2)));
+        }
     }
     if let Some(want) = expected_text(p) {
         if full.buf != want {
